@@ -39,7 +39,9 @@ OUTCOMES = {
     "returns": [("echo", [1, "a"]), ("kw", {"x": 1}), ("const0", []), ("noargs", None), ("pub", [None]),
                 ("sub.inner", {"x": 3}), ("é", [])],
     "raises": [("fail", []), ("failkey", [1]), ("failos", {}), ("failempty", None), ("sub.fail", []),
-               ("fail", {"a": 1}), ("failuser", {"x": None, "y": [2]})],
+               ("fail", {"a": 1}), ("failuser", {"x": None, "y": [2]}),
+               # (an exception whose text cannot be produced: reporting it must not turn into an answer)
+               ("failstr", []), ("failstr", {"a": 1})],
     "unknown": [("nosuch", []), ("_priv", [1]), ("sub._hidden", None), ("no.such", {})],
     "badargs": [("two", []), ("two", [1, 2, 3]), ("noargs", [1]), ("two", {"c": 1}), ("kwonly", [1, 2])],
     "typeerror": [("failtype", []), ("failtype", [1, 2]), ("failtype", {"a": 1}), ("failtype", {"x": 0, "y": "s"})],
